@@ -5,7 +5,7 @@ XMLResource(lazy=1) gives the same verdict and the same errors in the same order
 data (lazy data materialised: every pruned subtree is represented by a generator placeholder); iterating the lazy resource yields the
 same (tag, text, in-scope namespaces) stream; thin_lazy on and off.  Depth 2 is explored and reported only.
 """
-import random
+import types, random
 from .common import pmap, result
 from .C01 import _cls
 from . import docgen
@@ -91,6 +91,43 @@ def eval_doc(args):
             elif which == 4 and isinstance(d0, dict) and isinstance(d1, dict) and list(d0) == list(d1) and all(len(d0[k]) == len(d1[k]) for k in d0) and leaves(d0) == leaves(d1):
                 reported.append('KNOWN:C06-lazy-decode-placeholders-lose-document-order')
             else: problems.append(f'data differs: {str(d0)[:80]} vs {str(d1)[:80]}')
+        # the other validation modes, the placeholders consumed: a strict decode raises for the lazy resource iff it raises for the loaded one; a skip decode reports no error
+        # and keeps the raw text of undecodable values in both
+        def outcome(src, mode):
+            try: d = s.decode(src, validation=mode)
+            except xmlschema.XMLSchemaValidationError: return 'raised', None
+            errs = []
+            def mat(x):
+                if isinstance(x, types.GeneratorType):
+                    for item in x:          # every placeholder is the same generator: one decoded chunk (after its errors) per placeholder, in document order
+                        if isinstance(item, xmlschema.XMLSchemaValidationError): errs.append(item)
+                        else: return mat(item)
+                    return None
+                if isinstance(x, dict): return {k: mat(v) for k, v in x.items()}
+                if isinstance(x, list): return [mat(v) for v in x]
+                return x
+            try: d = mat(d)
+            except xmlschema.XMLSchemaValidationError: return 'raised', None
+            return ('errors-yielded' if errs else 'returned'), d
+        for thin in (True, False):
+            o0, o1 = outcome(doc, 'strict'), outcome(xmlschema.XMLResource(doc, lazy=1, thin_lazy=thin), 'strict')
+            if o0[0] != o1[0]:
+                # listed finding: the key references held by the root element are checked when the root is decoded, while its children are still placeholders
+                # (spurious failures), and the identity constraints / ID references that span the chunks are not checked at all by the chunk decoder (missed failures)
+                ident = lambda r_: any(t_ in r_ for t_ in ('not found for', 'duplicated value', 'IDREF', 'xs:ID', 'missing key field'))
+                if which == 1 and ' first="' in doc.split('>', 1)[0] and o0[0] == 'returned' and o1[0] == 'raised' and not e0: reported.append('KNOWN:C06-lazy-decode-checks-root-keyrefs-before-the-chunks')
+                elif o0[0] == 'raised' and o1[0] == 'returned' and e0 and all(ident(r_ or '') for r_, _ in e0): reported.append('KNOWN:C06-lazy-decode-checks-root-keyrefs-before-the-chunks')
+                else: problems.append(f'strict decode (thin_lazy={thin}): loaded document {o0[0]}, lazy one {o1[0]}')
+            k0, k1 = outcome(doc, 'skip'), outcome(xmlschema.XMLResource(doc, lazy=1, thin_lazy=thin), 'skip')
+            if k0[0] != k1[0]: problems.append(f'skip decode (thin_lazy={thin}): loaded document {k0[0]}, lazy one {k1[0]}')
+            elif k0[1] != k1[1] and which != 4:
+                def strip2(d, lvl=0):
+                    if isinstance(d, dict):
+                        x = {k: strip2(v, lvl + 1) for k, v in d.items() if not (lvl >= 1 and k.startswith('@xmlns'))}
+                        return x['$'] if lvl >= 1 and set(x) == {'$'} else x
+                    if isinstance(d, list): return [strip2(v, lvl) for v in d]
+                    return d
+                if strip2(k0[1]) != strip2(k1[1]): problems.append(f'skip decode data differs (thin_lazy={thin}): {str(k0[1])[:80]} vs {str(k1[1])[:80]}')
         full = xmlschema.XMLResource(doc); lazy = xmlschema.XMLResource(doc, lazy=1, thin_lazy=False)
         # the order in which a lazy resource yields the descendants of a chunk is pinned by the test-suite (reverse end order), so the
         # property's "same elements, text and in-scope namespaces" is read as equality of multisets; the order difference is reported only
@@ -195,7 +232,7 @@ def run(tier, seed, open_findings):
     fails = [dict(case=dict(doc=r['doc'], ver=r['ver'], template=4 if r['doc'].startswith('<r><') or r['doc'] == '<r></r>' else 3 if r['doc'].startswith('<r') else (2 if '<t:code>' in r['doc'] or '<t:r xmlns:t="urn:t"><t:' in r['doc'] and 't:item' not in r['doc'] else 1)), observed=r['problems'], required='lazy = eager') for r in res if r['problems']]
     known = {}
     for r in res:
-        for fid in ('C06-lazy-decode-drops-nested-xmlns', 'C06-thin-lazy-positional-predicates', 'C06-lazy-decode-placeholders-lose-document-order'):
+        for fid in ('C06-lazy-decode-drops-nested-xmlns', 'C06-thin-lazy-positional-predicates', 'C06-lazy-decode-placeholders-lose-document-order', 'C06-lazy-decode-checks-root-keyrefs-before-the-chunks'):
             if 'KNOWN:' + fid in r['reported']:
                 if fid in open_findings: known[fid] = known.get(fid, 0) + 1
                 else: fails.append(dict(case=dict(doc=r['doc'], ver=r['ver']), observed=fid, required='lazy = eager'))
